@@ -62,7 +62,7 @@ void harness(void)
 	for (i = 0; i < NP; i++) {
 		int kind = symx_u8("rk");
 		/* 0 nothing, 1 literal, 2 group reference, 3 escaped character; the first piece is never empty */
-		symx_assume(kind < 4 && (i > 0 || kind == 1 || kind == 2));
+		symx_assume(kind < 4 && (i > 0 || kind != 0));
 		kind = symx_conc(kind);
 		reppiece[i][0] = kind;
 		reppiece[i][1] = 0;
